@@ -43,6 +43,8 @@ def typeOf (te : TyEnv) : Expr → Ty
   | .or _ _ => .bool
   | .not _ => .bool
   | .ite _ a b => if typeOf te a = typeOf te b then typeOf te a else .int
+  | .abs _ => .int                       -- `(x)>0?(x):-(x)`: the negation is an `int`
+  | .mm _ a b => if typeOf te a = typeOf te b then typeOf te a else .int
 
 def eval (te : TyEnv) (s : Store) : Expr → Except Err Val
   | .int n => .ok (.int n)
@@ -58,6 +60,10 @@ def eval (te : TyEnv) (s : Store) : Expr → Except Err Val
     let x ← eval te s c
     let v ← if x.truthy then eval te s a else eval te s b
     pure (conv (typeOf te (.ite c a b)) v)
+  -- `abs`, `min`, `max` are the Arduino macros `((x)>0?(x):-(x))`, `((a)<(b)?(a):(b))`, `((a)>(b)?(a):(b))`: the chosen operand is
+  -- evaluated a second time; expressions of this language are pure, so the second evaluation yields the value of the first
+  | .abs a => do let x ← eval te s a; if x.toInt > 0 then pure (.int x.toInt) else chk (-x.toInt)
+  | .mm k a b => do let x ← eval te s a; let y ← eval te s b; pure (conv (typeOf te (.mm k a b)) (k.cpick x y))
 
 open Py (Flow St)
 
